@@ -842,19 +842,24 @@ func registerReflect(ex *Executor) {
 		if a.IsConst() && b.IsConst() {
 			return smt.BoolC(strings.EqualFold(a.S, b.S)), cNext
 		}
-		if smt.StrAsInt {
-			ex.abort("strings.EqualFold on a symbolic string (needs -strint=false with cvc5)")
+		// ASCII case folding: equal after lower-casing (lower is idempotent, and "" is the only string folding to "")
+		ex.usesLower = true
+		la, lb := smt.Lower(a), smt.Lower(b)
+		for _, x := range []*smt.Term{a, b} {
+			if !x.IsConst() {
+				st.addPC(smt.Eq(smt.Lower(smt.Lower(x)), smt.Lower(x)))
+				st.addPC(smt.Eq(smt.Eq(smt.Lower(x), smt.StrC("")), smt.Eq(x, smt.StrC(""))))
+			}
 		}
-		return smt.Eq(smt.App("str.to_lower", smt.String, a), smt.App("str.to_lower", smt.String, b)), cNext
+		return smt.Eq(la, lb), cNext
 	}
 	I["strings.ToLower"] = func(ex *Executor, st *State, cc *CallCtx, args []Val) (Val, ctl) {
 		s := args[0].(*smt.Term)
 		if !s.IsConst() {
-			if smt.StrAsInt {
-				ex.abort("strings.ToLower on a symbolic string (needs -strint=false with cvc5)")
-			}
-			return smt.App("str.to_lower", smt.String, s), cNext
+			ex.usesLower = true
+			st.addPC(smt.Eq(smt.Lower(smt.Lower(s)), smt.Lower(s)))
+			st.addPC(smt.Eq(smt.Eq(smt.Lower(s), smt.StrC("")), smt.Eq(s, smt.StrC(""))))
 		}
-		return smt.StrC(strings.ToLower(s.S)), cNext
+		return smt.Lower(s), cNext
 	}
 }
